@@ -24,6 +24,10 @@ class FsErr(Exception):
         self.injected = injected
 
 
+from ..interp import STD_ENUMS
+STD_ENUMS["SeekFrom"] = ["Start", "End", "Current"]
+
+
 class IoError:
     rust_type = "io::Error"
 
@@ -1472,7 +1476,33 @@ def _ntf_flush(I, a, d):
 
 @T.trait("Seek", "seek")
 def _seek(I, a, d):
-    raise Inconclusive("Seek::seek")
+    f = peel(a[0])
+    if isinstance(f, NamedTempFileObj):
+        f = f.file
+    pos = peel(a[1])
+    if not isinstance(f, FileObj) or not isinstance(pos, Adt):
+        raise Inconclusive("Seek::seek on %r" % (f,))
+    if pos.vname == "Start":
+        f.offset = pos.fields[0]
+    elif pos.vname == "End":
+        if not (isinstance(pos.fields[0], int) and pos.fields[0] == 0):
+            raise Inconclusive("SeekFrom::End(n)")
+        f.offset = f.inode.sb.length()
+    elif pos.vname == "Current":
+        if not (isinstance(pos.fields[0], int) and pos.fields[0] == 0):
+            raise Inconclusive("SeekFrom::Current(n)")
+    else:
+        raise Inconclusive("SeekFrom::%s" % pos.vname)
+    return OK(f.offset)
+
+
+@T.trait("Seek", "rewind")
+def _rewind(I, a, d):
+    f = peel(a[0])
+    if isinstance(f, NamedTempFileObj):
+        f = f.file
+    f.offset = 0
+    return OK(UNIT)
 
 
 @T.path("tempfile::tempfile", "tempfile::tempfile_in", "tempfile::tempdir", "tempfile::tempdir_in", "tempfile::Builder::new")
